@@ -99,6 +99,9 @@ def _menu():
     m['kmedoids'] = lambda: (km.kmedoids, (X(), 'euclidean'), {'n_clusters': 2, 'n_iters': 2, 'random_state': 3})
     m['hybrid'] = lambda: (hy.hybrid, (X(), 'euclidean'), {'n_clusters': 2, 'n_iters': 2, 'random_state': 5})
     m['euclidean'] = lambda: (libdist.euclidean, (X(), np.array([1.0, 2.0])), {})
+    Xw = lambda: ((np.arange(5 * 1500).reshape(5, 1500) * 7919 % 1000) / 7.0)
+    m['euclidean_wide'] = lambda: (libdist.euclidean, (Xw(), ((np.arange(1500) * 31 % 97) / 3.0)), {})
+    m['kcenters_wide'] = lambda: (kc.kcenters, (Xw(), 'euclidean'), {'n_clusters': 3})
     m['manhattan_f'] = lambda: (libdist.manhattan, (np.asfortranarray(X()), np.array([1.0, 2.0])), {})
     m['hamming'] = lambda: (libdist.hamming, (F().astype(np.uint8), np.array([0, 1], dtype=np.uint8)), {})
     m['ra_add'] = lambda: ((lambda a, b: a + b), (A(), A()), {})
@@ -499,7 +502,7 @@ def _menu_names():
     return MENU_NAMES
 
 
-MENU_NAMES = ['mi_to_nmi', 'mi_to_apc', 'mi_to_nmi_apc', 'deconvolute_network', 'mi_matrix_serial', 'relative_entropy_per_state',
+MENU_NAMES = ['euclidean_wide', 'kcenters_wide', 'mi_to_nmi', 'mi_to_apc', 'mi_to_nmi_apc', 'deconvolute_network', 'mi_matrix_serial', 'relative_entropy_per_state',
               'relative_entropy_msm', 'relative_entropy_msm_eq', 'Q_from_assignments', 'energy_to_probability', 'implied_timescales',
               'builder_normalize_zero_rows', 'builder_transpose_zero_rows', 'builder_normalize_zero_rows_csr', 'trim_inplace',
               'ra_getitem_index_arrays', 'ra_getitem_0d_index', 'ra_setitem_index_arrays', 'ra_getitem_rowarray',
